@@ -47,6 +47,11 @@ func c03Check(s string) {
 		// runs into the next line, so the second pass prints it over several lines
 		return
 	}
+	if nd.Known("C03-trailing-escaped-space") && vTrailingEscapedSpace(s) {
+		// recorded finding: an escaped white space at the end of an unquoted string is trimmed
+		// from the raw text, which leaves the backslash in front of the line end
+		return
+	}
 	t1 := Format(m)
 	nd.Cover("formatted")
 	m2, err := d2parser.Parse("f.d2", strings.NewReader(t1), nil)
@@ -112,4 +117,23 @@ func VerifC03Templates() {
 		s = "a -> b <- c -- d: " + h + "\nb <-> a: " + g + "\n"
 	}
 	c03Check(s)
+}
+
+// vTrailingEscapedSpace: some unquoted text of s ends in an escaped white space
+// (backslash, blank, then optional blanks up to a line end, closing brace or
+// bracket, semicolon, comment or the end of the input).
+func vTrailingEscapedSpace(s string) bool {
+	for i := 0; i+1 < len(s); i++ {
+		if s[i] != '\\' || (s[i+1] != ' ' && s[i+1] != '\t') {
+			continue
+		}
+		j := i + 2
+		for j < len(s) && (s[j] == ' ' || s[j] == '\t') {
+			j++
+		}
+		if j == len(s) || s[j] == '\n' || s[j] == '}' || s[j] == ']' || s[j] == ';' || s[j] == '#' {
+			return true
+		}
+	}
+	return false
 }
